@@ -84,7 +84,8 @@ void wbxml_tree_clb_wbxml_start_element(void *ctx, WBXMLTag *element, WBXMLAttri
                                                       element,
                                                       attrs);
     if (tree_ctx->current == NULL) {
-        tree_ctx->error = WBXML_ERROR_INTERNAL;
+        /* The node, its name or its attributes could not be allocated */
+        tree_ctx->error = WBXML_ERROR_NOT_ENOUGH_MEMORY;
     }
 }
 
@@ -128,6 +129,7 @@ void wbxml_tree_clb_wbxml_characters(void *ctx, WB_UTINY *ch, WB_ULONG start, WB
     WBXMLTreeClbCtx *tree_ctx = (WBXMLTreeClbCtx *) ctx;
 #if defined ( WBXML_SUPPORT_SYNCML )
     WBXMLTree *tmp_tree = NULL;
+    WBXMLError ret = WBXML_OK;
 #endif /* WBXML_SUPPORT_SYNCML */
 
     if (tree_ctx->error != WBXML_OK)
@@ -140,10 +142,18 @@ void wbxml_tree_clb_wbxml_characters(void *ctx, WB_UTINY *ch, WB_ULONG start, WB
         /* Deal with Embedded SyncML Documents - Parse WBXML
          * (a document embedded in an embedded document is not parsed: each parse has its own nesting
          * limit, and documents referenced from a string table could otherwise multiply at every level) */
-        if ((tree_ctx->embedded_depth >= WBXML_MAX_EMBEDDED_DEPTH) ||
-            (wbxml_tree_from_wbxml_embedded(ch + start, length, WBXML_LANG_UNKNOWN, tree_ctx->tree->orig_charset,
-                                            tree_ctx->embedded_depth + 1, &tmp_tree) != WBXML_OK))
-        {
+        if (tree_ctx->embedded_depth >= WBXML_MAX_EMBEDDED_DEPTH)
+            goto text_node;
+
+        ret = wbxml_tree_from_wbxml_embedded(ch + start, length, WBXML_LANG_UNKNOWN, tree_ctx->tree->orig_charset,
+                                             tree_ctx->embedded_depth + 1, &tmp_tree);
+        if (ret == WBXML_ERROR_NOT_ENOUGH_MEMORY) {
+            /* Running out of memory does not make the content 'not parsable' */
+            tree_ctx->error = ret;
+            return;
+        }
+
+        if (ret != WBXML_OK) {
             /* Not parsable ? Just add it as a Text Node... */
             goto text_node;
         }
@@ -153,7 +163,7 @@ void wbxml_tree_clb_wbxml_characters(void *ctx, WB_UTINY *ch, WB_ULONG start, WB
                                 tree_ctx->current,
                                 tmp_tree) == NULL)
         {
-            tree_ctx->error = WBXML_ERROR_INTERNAL;
+            tree_ctx->error = WBXML_ERROR_NOT_ENOUGH_MEMORY;
             wbxml_tree_destroy(tmp_tree);
         }
 
@@ -205,7 +215,7 @@ void wbxml_tree_clb_wbxml_characters(void *ctx, WB_UTINY *ch, WB_ULONG start, WB
         if (tree_ctx->current->type != WBXML_TREE_CDATA_NODE) {
             tree_ctx->current = wbxml_tree_add_cdata(tree_ctx->tree, tree_ctx->current);
             if (tree_ctx->current == NULL) {
-                tree_ctx->error = WBXML_ERROR_INTERNAL;
+                tree_ctx->error = WBXML_ERROR_NOT_ENOUGH_MEMORY;
                 return;
             }
         }
@@ -228,7 +238,7 @@ text_node:
                             (const WB_UTINY*) ch + start,
                             length) == NULL)
     {
-        tree_ctx->error = WBXML_ERROR_INTERNAL;
+        tree_ctx->error = WBXML_ERROR_NOT_ENOUGH_MEMORY;
     }
 }
 
